@@ -93,6 +93,11 @@ AEqual(p, q) == p = q              \* NIL equals only NIL; otherwise keys, value
 ASet(p, k, v) == AV(LSet(p.kv, k, v))
 AReplace(p, o, n, v) == AV(LReplace(p.kv, o, n, v))
 ADelete(p, k) == IF p.nil THEN NIL ELSE AV(LDelete(p.kv, k))
+\* constructors / derived maps of the package API
+RECURSIVE LFromItems(_)
+LFromItems(items) == IF Len(items) = 0 THEN <<>> ELSE LSet(LFromItems(SubSeq(items, 1, Len(items) - 1)), items[Len(items)].k, items[Len(items)].v)
+AMapFromItems(items) == AV(LFromItems(items))                       \* MapFromItems: Set in order (later duplicates overwrite in place)
+LTransform(l, suffix) == [i \in 1..Len(l) |-> P(l[i].k, l[i].v \o suffix)]   \* TransformValues: same keys, same order
 ARangeRename(p, f) ==
     LET r == LRangeRename(p.kv, f) IN [pairs |-> [p EXCEPT !.kv = r.pairs], yields |-> r.yields]
 =============================================================================
